@@ -419,6 +419,34 @@ func TestC08Free(t *testing.T) {
 				}
 			}(w)
 		}
+		// in every third repetition the peer is sending at the same time: the connection's reading side decrypts
+		// its frames (on the goroutine that serves requests) while the writers seal theirs
+		duplex := rep%3 == 0
+		readDone := make(chan struct{})
+		if duplex {
+			var secret [32]byte
+			for i := range secret {
+				secret[i] = byte(i + 40)
+			}
+			_, kc2a := refctl.SessionKeys(secret[:])
+			sealer := &refctl.Sealer{Key: kc2a}
+			var evs []fixture.Event
+			for i := 0; i < 300; i++ {
+				evs = append(evs, fixture.Event{Data: sealer.SealFrame(payload(50, i, 1+(i*37)%700))})
+			}
+			conn.Append(evs...)
+			go func() { // reads until the peer's frames are used up (the scripted connection then reports a read time-out)
+				defer close(readDone)
+				buf := make([]byte, 2048)
+				for {
+					if _, err := hc.Read(buf); err != nil {
+						return
+					}
+				}
+			}()
+		} else {
+			close(readDone)
+		}
 		kaCtx, kaCancel := gocontext.WithCancel(gocontext.Background())
 		withKA := rep%2 == 0
 		kaDone := make(chan struct{})
@@ -435,12 +463,16 @@ func TestC08Free(t *testing.T) {
 		<-kaDone
 		err := verdict(conn, key, want)
 		cls := []string{fmt.Sprintf("free:writers=%d", nw)}
+		if duplex {
+			cls = append(cls, "free:peer-sending-meanwhile")
+		}
 		if withKA {
 			cls = append(cls, "free:keep-alive")
 		}
 		stats.Case(stats.Hash("free", k, rep), true, cls, func() interface{} {
 			return map[string]interface{}{"mode": "free-running", "writers": nw, "writes_per_writer": rounds, "keep_alive": withKA}
 		})
+		<-readDone
 		cleanup()
 		if err != nil {
 			stats.Fail("TestC08Free", err.Error(), map[string]interface{}{"writers": nw, "rounds": rounds, "keep_alive": withKA})
